@@ -39,7 +39,7 @@ def run(ctx):
     n = 150 if not ctx.thorough() else 5000
     graphcheck.run_family(ctx, n, ASPECTS, CHECKS, SIGS_A, corpus=CORPUS_A, flavours=("future", "coro", "tornado"),
                           fail_prob=0.15, p_sinkfail=0.15)
-    A.sweep(ctx, n, A.ALL_KINDS, ["early"], SIGS_B, corpus=CORPUS_B, opts={"p_jobfail": 0.25})
+    A.sweep(ctx, n, A.ALL_KINDS, ["early"], SIGS_B, corpus=CORPUS_B, opts={"p_jobfail": 0.25, "p_nomd": 0.2})
     for m in corr_modules():
         m.run(ctx, "C04", 40 if not ctx.thorough() else 1500)
     ctx.coverage["rule"] = ("(A) graph-family generator, both modes, 15% failing functions / failing consumers, every emission with a fresh counter; "
